@@ -110,15 +110,24 @@ def strip_ws(s):
 
 
 def inproc_view(resp):
-    if "items" not in resp or not resp["items"]:
+    """summary of the real expansion, or None when the response cannot be read (expander error / panic, token
+    stream that does not parse as items, unexpected shape).  Never raises."""
+    try:
+        items = resp.get("items") if isinstance(resp, dict) else None
+        if not isinstance(items, list) or not items or items[0].get("kind") != "impl":
+            return None
+        it = items[0]
+        body = ""
+        for m in it["members"]:
+            if m["kind"] == "fn":
+                body = m["body"]
+        return {"params": [strip_ws(p) for p in it["params"]], "trait": strip_ws(it["trait"]), "where": [strip_ws(w) for w in it.get("where", [])],
+                "self": strip_ws(it["self_ty"]), "consts": [(m.group(1), m.group(2), m.group(3)) for m in CONST_RE.finditer(body)]}
+    except Exception:
         return None
-    it = resp["items"][0]
-    body = ""
-    for m in it["members"]:
-        if m["kind"] == "fn":
-            body = m["body"]
-    return {"params": [strip_ws(p) for p in it["params"]], "trait": strip_ws(it["trait"]), "where": [strip_ws(w) for w in it.get("where", [])],
-            "self": strip_ws(it["self_ty"]), "consts": [(m.group(1), m.group(2), m.group(3)) for m in CONST_RE.finditer(body)]}
+
+
+unreadable_class = G.unreadable_class
 
 
 def header_strings(h, repr_name):
@@ -137,49 +146,7 @@ def header_strings(h, repr_name):
 
 # ------------------------------------------------------------------ the generated crate
 
-def parse_diags(out, crate_dir):
-    """cargo --message-format=json -> {module id: [(code, message, from_derive)]}"""
-    bad = {}
-    other = []
-    for line in out.splitlines():
-        if not line.startswith("{"):
-            continue
-        try:
-            j = json.loads(line)
-        except Exception:
-            continue
-        if j.get("reason") != "compiler-message":
-            continue
-        m = j["message"]
-        if m.get("level") != "error":
-            continue
-        code = (m.get("code") or {}).get("code")
-        spans = m.get("spans") or []
-        files = set()
-
-        def walk(sp, depth=0):
-            # an error inside `drive!` has its primary span in main.rs; the call site (the module) is up the expansion chain
-            if sp is None or depth > 8:
-                return
-            fn = sp.get("file_name", "")
-            if fn.startswith("src/") and fn != "src/main.rs" and fn.endswith(".rs"):
-                files.add(os.path.basename(fn)[:-3])
-            walk((sp.get("expansion") or {}).get("span"), depth + 1)
-        for sp in spans:
-            walk(sp)
-        for ch in m.get("children") or []:
-            for sp in ch.get("spans") or []:
-                walk(sp)
-        rendered = m.get("rendered") or m.get("message")
-        from_derive = "derive macro `TryFrom`" in rendered or any(
-            (s.get("expansion") or {}).get("macro_decl_name", "").startswith("#[derive(TryFrom") for s in spans)
-        if not files:
-            if "aborting due to" in m.get("message", "") or "could not compile" in m.get("message", ""):
-                continue
-            other.append(m.get("message"))
-        for f in files:
-            bad.setdefault(f, []).append((code, m.get("message"), from_derive))
-    return bad, other
+parse_diags = G.parse_diags
 
 
 def build_and_run(chk, cases, name=CRATE):
@@ -248,14 +215,17 @@ def build_and_run(chk, cases, name=CRATE):
             if f[1] != "64":
                 raise common.BuildError("C12 model assumes a 64-bit target, usize::BITS = %s" % f[1])
             continue
-        rec = {}
-        for kv in f[1:]:
-            k, _, v = kv.partition("=")
-            rec[k] = v
-        pairs = lambda s: [(int(a), int(b)) for a, b in (x.split(":") for x in s.split(",") if x)]
-        outs[f[0]] = {"mode": rec["mode"], "table": dict(pairs(rec["table"])), "full": rec["full"] == "true",
-                      "points": [int(x) for x in rec["points"].split(",") if x], "ok": dict(pairs(rec["ok"])),
-                      "err_good": int(rec["err_good"]), "err_bad": pairs(rec["err_bad"])}
+        try:
+            rec = {}
+            for kv in f[1:]:
+                k, _, v = kv.partition("=")
+                rec[k] = v
+            pairs = lambda s: [(int(a), int(b)) for a, b in (x.split(":") for x in s.split(",") if x)]
+            outs[f[0]] = {"mode": rec["mode"], "table": dict(pairs(rec["table"])), "full": rec["full"] == "true",
+                          "points": [int(x) for x in rec["points"].split(",") if x], "ok": dict(pairs(rec["ok"])),
+                          "err_good": int(rec["err_good"]), "err_bad": pairs(rec["err_bad"])}
+        except Exception:
+            continue          # reported as program-output-missing by the caller
     return failed, outs
 
 
@@ -307,32 +277,39 @@ def repr_selection_tie(chk, inproc, tier):
     rres = common.run_jsonl(inproc, rreqs)
     rterms = common.coq_eval(["Verif.C12.Model"], ["repr_of %s" % G.coq_attrs({"repr_attrs": a}) for a in rcs], tag="c12c")
     for attrs, rq, r, t in zip(rcs, rreqs, rres, rterms):
-        chk.count(("repr", json.dumps(attrs)), len(attrs) > 0)
-        as_case = {"id": "rp", "repr_attrs": attrs, "generics": [], "inproc_only": True,
-                   "variants": [{"name": "A", "fields": "unit", "discr": None}, {"name": "B", "fields": "unit", "discr": None}]}
-        v = inproc_view(r)
-        if v is not None:
-            m = re.match(r"derive_more::core::convert::TryFrom<(\w+)", v["trait"])
-            real = m.group(1) if m else "?"
-        elif "err" in r:
-            real = None
-        else:
-            chk.violation("expander-rejects", {"case": as_case, "rust": rq["item"], "response": r}, "expander fails on repr hints %s" % attrs)
-            continue
-        ints = [h for a in attrs for h in a if h in G.INTS]
-        pos = "none" if not ints else ("several" if len(ints) > 1 else
-                                       [("last" if a[-1] == ints[0] else "first" if a[0] == ints[0] else "middle") for a in attrs if ints[0] in a][0])
-        chk.bump("repr_hint_int_position:" + pos)
-        # the property's reading: a unique integer hint is the repr, none means isize
-        if len(ints) <= 1 and real != (ints[0] if ints else "isize"):
-            chk.violation("repr-selection", {"case": as_case, "rust": rq["item"], "expander": real, "expected": ints[0] if ints else "isize",
-                                             "response": r.get("err")},
-                          "%s: the expansion is `impl TryFrom<%s>` but the representation type is %s" %
-                          (rq["item"], real, ints[0] if ints else "isize"))
-        model = None if t == "None" else t[1].lower()
-        if model != real:
-            chk.violation("tie-model-repr", {"case": as_case, "rust": rq["item"], "model": model, "code": real, "response": r.get("err")},
-                          "repr_of disagrees with ReprInt::parse_attrs on %s" % attrs)
+        try:
+            chk.count(("repr", json.dumps(attrs)), len(attrs) > 0)
+            as_case = {"id": "rp", "repr_attrs": attrs, "generics": [], "inproc_only": True,
+                       "variants": [{"name": "A", "fields": "unit", "discr": None}, {"name": "B", "fields": "unit", "discr": None}]}
+            v = inproc_view(r)
+            if v is not None:
+                m = re.match(r"derive_more::core::convert::TryFrom<(\w+)", v["trait"])
+                real = m.group(1) if m else "?"
+            elif "err" in r:
+                real = None
+            else:
+                chk.violation("expander-rejects", {"case": as_case, "rust": rq["item"], "response": r}, "expander fails on repr hints %s" % attrs)
+                continue
+            ints = [h for a in attrs for h in a if h in G.INTS]
+            pos = "none" if not ints else ("several" if len(ints) > 1 else
+                                           [("last" if a[-1] == ints[0] else "first" if a[0] == ints[0] else "middle") for a in attrs if ints[0] in a][0])
+            chk.bump("repr_hint_int_position:" + pos)
+            # the property's reading: a unique integer hint is the repr, none means isize
+            if len(ints) <= 1 and real != (ints[0] if ints else "isize"):
+                chk.violation("repr-selection", {"case": as_case, "rust": rq["item"], "expander": real, "expected": ints[0] if ints else "isize",
+                                                 "response": r.get("err")},
+                              "%s: the expansion is `impl TryFrom<%s>` but the representation type is %s" %
+                              (rq["item"], real, ints[0] if ints else "isize"))
+            model = None if t == "None" else t[1].lower()
+            if model != real:
+                chk.violation("tie-model-repr", {"case": as_case, "rust": rq["item"], "model": model, "code": real, "response": r.get("err")},
+                              "repr_of disagrees with ReprInt::parse_attrs on %s" % attrs)
+        except common.BuildError:
+            raise
+        except Exception as e:      # a reader of real output must never abort the check
+            import traceback
+            chk.violation("expander-output-unreadable", {"rust": rq["item"], "error": traceback.format_exc()[-1500:]},
+                          "cannot read the expansion for repr hints: %s: %s" % (type(e).__name__, e))
     chk.bump("repr_hint_lists", len(rcs))
 
 
@@ -364,8 +341,9 @@ def run(tier, seed, replay):
     for c, r, rq in zip(cases, exp, reqs):
         v = inproc_view(r)
         if v is None:
-            chk.violation("expander-rejects", {"case": c, "rust": rq["item"], "response": r},
-                          "the expander rejects / panics on a rustc-acceptable enum %s: %s" % (c["id"], str(r)[:200]))
+            cls, why = unreadable_class(r)
+            chk.violation(cls, {"case": c, "rust": G.enum_item(c), "response": str(r)[:1500]},
+                          "%s: %s" % (G.enum_item(c, with_derive=False).replace("\n", " "), why))
         views[c["id"]] = v
 
     # ---- 2. the model on the same declarations (first pass: everything that does not need run-time points)
@@ -378,52 +356,59 @@ def run(tier, seed, replay):
     predicted_header_bad = set()
     wrong_repr = set()
     for c, t in zip(cases, pre_terms):
-        v = views[c["id"]]
-        if v is None:
-            continue
-        hdr, mconsts, mrepr = t
-        lrepr = G.language_repr(c)
-        # model repr vs the repr the real expander used
-        m = re.match(r"derive_more::core::convert::TryFrom<(\w+)", v["trait"])
-        real_repr = m.group(1) if m else None
-        model_repr = None if mrepr == "None" else mrepr[1].lower()
-        if model_repr != real_repr:
-            chk.violation("tie-model-repr", {"case": c, "model": model_repr, "code": real_repr},
-                          "model and expander select different reprs for %s" % c["repr_attrs"])
-        if real_repr != lrepr:
-            chk.violation("repr-selection", {"case": c, "rust": G.enum_item(c), "expander": real_repr, "language": lrepr},
-                          "%s: the expansion is `impl TryFrom<%s>` but the enum's representation type is %s" %
-                          (G.enum_item(c, with_derive=False).replace("\n", " "), real_repr, lrepr))
-            wrong_repr.add(c["id"])       # `E: TryFrom<%s>` does not exist: keep the module out of the crate
-        # header
-        mp, mt, ms = header_strings(hdr, lrepr)
-        # declared bounds / where-clause must reappear on the impl (the model does not carry bounds)
-        decl_params = [strip_ws(x) for x in G.generics_decl(c, for_impl=True)[1:-1].split(",")] if c["generics"] else []
-        decl_where = [strip_ws(G.where_clause(c)[len("where"):])] if G.where_clause(c) else []
-        if v["params"] != decl_params or v["where"] != decl_where:
-            chk.violation("generic-enum-header", {"case": c, "rust": G.enum_item(c), "impl_params": v["params"], "impl_where": v["where"]},
-                          "%s: the impl has parameters %s where %s" % (G.enum_item(c, False).replace("\n", " "), v["params"], v["where"]))
-            predicted_header_bad.add(c["id"])
-        real_params_unbounded = [x.split("=")[0] if x.startswith("const") else x.split("=")[0].split(":")[0] for x in v["params"]]
-        if (mp, mt, ms) != (real_params_unbounded, v["trait"], v["self"]):
-            chk.violation("tie-model-header", {"case": c, "model": [mp, mt, ms], "code": [v["params"], v["trait"], v["self"]]},
-                          "model and expander disagree on the impl header of %s" % c["id"])
-        args = strip_ws(G.generics_args(c))
-        if not (v["trait"] == "derive_more::core::convert::TryFrom<%s>" % lrepr and v["self"] == "E" + args):
-            predicted_header_bad.add(c["id"])
-        # constants: token text of the real expansion, re-parsed by an independent precedence parser,
-        # vs the model's spliced trees
-        cvals = {nm: tv[1] for nm, tv in G.case_consts(c).items()}
         try:
-            real_consts = [(nm, G.parse_tokens(txt, cvals)) for (nm, ty, txt) in v["consts"]]
-        except Exception as e:           # token text outside the fragment: a broken tie, not a crash
-            chk.violation("tie-model-consts", {"case": c, "error": str(e), "consts": v["consts"]},
-                          "cannot re-parse the generated constants of %s" % c["id"])
-            continue
-        model_consts = [(common.py_str(nm), G.coq_term_expr(e)) for (nm, e) in mconsts]
-        if real_consts != model_consts or any(ty != real_repr for (_, ty, _) in v["consts"]):
-            chk.violation("tie-model-consts", {"case": c, "model": model_consts, "code": real_consts, "text": v["consts"]},
-                          "model and expander disagree on the generated constants of %s" % c["id"])
+            v = views[c["id"]]
+            if v is None:
+                continue
+            hdr, mconsts, mrepr = t
+            lrepr = G.language_repr(c)
+            # model repr vs the repr the real expander used
+            m = re.match(r"derive_more::core::convert::TryFrom<(\w+)", v["trait"])
+            real_repr = m.group(1) if m else None
+            model_repr = None if mrepr == "None" else mrepr[1].lower()
+            if model_repr != real_repr:
+                chk.violation("tie-model-repr", {"case": c, "model": model_repr, "code": real_repr},
+                              "model and expander select different reprs for %s" % c["repr_attrs"])
+            if real_repr != lrepr:
+                chk.violation("repr-selection", {"case": c, "rust": G.enum_item(c), "expander": real_repr, "language": lrepr},
+                              "%s: the expansion is `impl TryFrom<%s>` but the enum's representation type is %s" %
+                              (G.enum_item(c, with_derive=False).replace("\n", " "), real_repr, lrepr))
+                wrong_repr.add(c["id"])       # `E: TryFrom<%s>` does not exist: keep the module out of the crate
+            # header
+            mp, mt, ms = header_strings(hdr, lrepr)
+            # declared bounds / where-clause must reappear on the impl (the model does not carry bounds)
+            decl_params = [strip_ws(x) for x in G.generics_decl(c, for_impl=True)[1:-1].split(",")] if c["generics"] else []
+            decl_where = [strip_ws(G.where_clause(c)[len("where"):])] if G.where_clause(c) else []
+            if v["params"] != decl_params or v["where"] != decl_where:
+                chk.violation("generic-enum-header", {"case": c, "rust": G.enum_item(c), "impl_params": v["params"], "impl_where": v["where"]},
+                              "%s: the impl has parameters %s where %s" % (G.enum_item(c, False).replace("\n", " "), v["params"], v["where"]))
+                predicted_header_bad.add(c["id"])
+            real_params_unbounded = [x.split("=")[0] if x.startswith("const") else x.split("=")[0].split(":")[0] for x in v["params"]]
+            if (mp, mt, ms) != (real_params_unbounded, v["trait"], v["self"]):
+                chk.violation("tie-model-header", {"case": c, "model": [mp, mt, ms], "code": [v["params"], v["trait"], v["self"]]},
+                              "model and expander disagree on the impl header of %s" % c["id"])
+            args = strip_ws(G.generics_args(c))
+            if not (v["trait"] == "derive_more::core::convert::TryFrom<%s>" % lrepr and v["self"] == "E" + args):
+                predicted_header_bad.add(c["id"])
+            # constants: token text of the real expansion, re-parsed by an independent precedence parser,
+            # vs the model's spliced trees
+            cvals = {nm: tv[1] for nm, tv in G.case_consts(c).items()}
+            try:
+                real_consts = [(nm, G.parse_tokens(txt, cvals)) for (nm, ty, txt) in v["consts"]]
+            except Exception as e:           # token text outside the fragment: a broken tie, not a crash
+                chk.violation("tie-model-consts", {"case": c, "error": str(e), "consts": v["consts"]},
+                              "cannot re-parse the generated constants of %s" % c["id"])
+                continue
+            model_consts = [(common.py_str(nm), G.coq_term_expr(e)) for (nm, e) in mconsts]
+            if real_consts != model_consts or any(ty != real_repr for (_, ty, _) in v["consts"]):
+                chk.violation("tie-model-consts", {"case": c, "model": model_consts, "code": real_consts, "text": v["consts"]},
+                              "model and expander disagree on the generated constants of %s" % c["id"])
+        except common.BuildError:
+            raise
+        except Exception as e:      # a reader of real output must never abort the check
+            import traceback
+            chk.violation("expander-output-unreadable", {"case": c, "rust": G.enum_item(c), "error": traceback.format_exc()[-1500:]},
+                          "cannot read the expansion of %s: %s: %s" % (c["id"], type(e).__name__, e))
 
     # ---- 3. repr selection on arbitrary hint lists (in-process only: rustc rejects most of these enums)
     if not replay:
@@ -431,7 +416,7 @@ def run(tier, seed, replay):
 
     # ---- 4. the real macro, compiled and run (modules whose expansion is for another repr, or that the
     #         expander refused, are already reported and stay out)
-    runnable = [c for c in cases if c["id"] not in wrong_repr and views[c["id"]] is not None and not c.get("inproc_only")]
+    runnable = [c for c in cases if c["id"] not in wrong_repr and not c.get("inproc_only")]
     try:
         failed, outs = build_and_run(chk, runnable)
     except common.BuildError as e:
@@ -455,74 +440,82 @@ def run(tier, seed, replay):
 
     n_tie = 0
     for c, t in zip(live, terms):
-        cid = c["id"]
-        lrepr = G.language_repr(c)
-        chk.count(json.dumps(c, sort_keys=True), nontrivial(c))
-        # model results
-        m_tbl = m_hits = None
-        m_compiles = False
-        if t != "None":
-            mt, mtbl, mconsts, mh = t[1]
-            m_tbl = None if mtbl == "None" else dict((i, d) for (i, d) in mtbl[1])
-            if mh != "None":
-                m_compiles = True
-                hl, errs_ok = mh[1]
-                m_hits = dict((n, i) for (n, i) in hl)
-                if errs_ok != "true":
-                    chk.violation("tie-model-hits", {"case": c}, "model Err does not carry its input")
-        gen_tbl = G.discr_values(c, lrepr)
-        model_fails = (not m_compiles) or (cid in predicted_header_bad)
+        try:
+            cid = c["id"]
+            lrepr = G.language_repr(c)
+            chk.count(json.dumps(c, sort_keys=True), nontrivial(c))
+            # model results
+            m_tbl = m_hits = None
+            m_compiles = False
+            if t != "None":
+                mt, mtbl, mconsts, mh = t[1]
+                m_tbl = None if mtbl == "None" else dict((i, d) for (i, d) in mtbl[1])
+                if mh != "None":
+                    m_compiles = True
+                    hl, errs_ok = mh[1]
+                    m_hits = dict((n, i) for (n, i) in hl)
+                    if errs_ok != "true":
+                        chk.violation("tie-model-hits", {"case": c}, "model Err does not carry its input")
+            gen_tbl = G.discr_values(c, lrepr)
+            model_fails = (not m_compiles) or (cid in predicted_header_bad)
 
-        if cid in failed:
-            diags = failed[cid]
-            cls = classify_failure(c, diags)
-            chk.violation(cls, {"case": c, "rust": G.rust_module(c), "rustc": [(a, b) for a, b, _ in diags][:6],
-                                "expected": "the expansion compiles (rustc accepts the enum itself)"},
-                          "TryFrom expansion of a valid enum does not compile (%s): %s" % (cid, "; ".join(str(b) for _, b, _ in diags[:2])))
-            if not model_fails:
-                chk.violation("tie-model-compile", {"case": c, "rustc": diags[:4]},
-                              "rustc rejects the expansion of %s but the model predicts that it compiles" % cid)
+            if cid in failed:
+                diags = failed[cid]
+                cls = classify_failure(c, diags)
+                chk.violation(cls, {"case": c, "rust": G.rust_module(c), "rustc": [(a, b) for a, b, _ in diags][:6],
+                                    "expected": "the expansion compiles (rustc accepts the enum itself)"},
+                              "TryFrom expansion of a valid enum does not compile (%s): %s" % (cid, "; ".join(str(b) for _, b, _ in diags[:2])))
+                if not model_fails:
+                    chk.violation("tie-model-compile", {"case": c, "rustc": diags[:4]},
+                                  "rustc rejects the expansion of %s but the model predicts that it compiles" % cid)
+                n_tie += 1
+                continue
+            o = outs.get(cid)
+            if o is None:
+                chk.violation("program-output-missing", {"case": c, "rust": G.enum_item(c)}, "the compiled program printed no line for %s" % cid)
+                continue
+            if model_fails:
+                chk.violation("tie-model-compile", {"case": c}, "the expansion of %s compiles but the model predicts a rejection" % cid)
+            # language table: program (oracle) vs generator vs model
+            table = o["table"]
+            if gen_tbl is None or table != dict(enumerate(gen_tbl)):
+                chk.violation("tie-language-table", {"case": c, "program": table, "generator": gen_tbl},
+                              "the compiled program's discriminants differ from the generator's evaluation (%s)" % cid)
+            if m_tbl != table:
+                chk.violation("tie-model-table", {"case": c, "program": table, "model": m_tbl},
+                              "rust_discrs (model of the language rule) differs from the compiled program's casts (%s)" % cid)
+            # oracle: exact inverse of the cast
+            pts = range(G.lo(lrepr), G.hi(lrepr) + 1) if o["full"] else o["points"]
+            npts = len(pts)
+            expected = {}
+            for i, v in enumerate(c["variants"]):
+                if G.is_empty(v) and i in table:
+                    expected[table[i]] = i
+            if not o["full"]:
+                expected = {d: i for d, i in expected.items() if d in set(pts)}
+            if o["ok"] != expected or o["err_bad"] or o["err_good"] != npts - len(o["ok"]):
+                wrong = sorted(set(o["ok"].items()) ^ set(expected.items()))[:6]
+                unsafe = any(v["discr"] is not None and not G.plus_safe(v["discr"]) for v in c["variants"])
+                cls = "splice-precedence" if unsafe else "inverse-mismatch"
+                names = [G.vsrc(v) for v in c["variants"]]
+                chk.violation(cls, {"case": c, "rust": G.enum_item(c), "observed_ok": sorted(o["ok"].items()),
+                                    "expected_ok": sorted(expected.items()), "err_with_wrong_input": o["err_bad"]},
+                              "try_from is not the inverse of the cast on %s: (n, variant) differing: %s; variants %s, discriminants %s" %
+                              (G.enum_item(c, with_derive=False).replace("\n", " "), wrong, names, sorted(table.items())))
+            # tie: model hits vs real hits
+            if m_hits is not None and m_hits != o["ok"]:
+                chk.violation("tie-model-hits", {"case": c, "model": sorted(m_hits.items()), "code": sorted(o["ok"].items())},
+                              "model and compiled expansion disagree on %s" % cid)
             n_tie += 1
-            continue
-        o = outs.get(cid)
-        if o is None:
-            raise common.BuildError("no output line for %s" % cid)
-        if model_fails:
-            chk.violation("tie-model-compile", {"case": c}, "the expansion of %s compiles but the model predicts a rejection" % cid)
-        # language table: program (oracle) vs generator vs model
-        table = o["table"]
-        if gen_tbl is None or table != dict(enumerate(gen_tbl)):
-            chk.violation("tie-language-table", {"case": c, "program": table, "generator": gen_tbl},
-                          "the compiled program's discriminants differ from the generator's evaluation (%s)" % cid)
-        if m_tbl != table:
-            chk.violation("tie-model-table", {"case": c, "program": table, "model": m_tbl},
-                          "rust_discrs (model of the language rule) differs from the compiled program's casts (%s)" % cid)
-        # oracle: exact inverse of the cast
-        pts = range(G.lo(lrepr), G.hi(lrepr) + 1) if o["full"] else o["points"]
-        npts = len(pts)
-        expected = {}
-        for i, v in enumerate(c["variants"]):
-            if G.is_empty(v) and i in table:
-                expected[table[i]] = i
-        if not o["full"]:
-            expected = {d: i for d, i in expected.items() if d in set(pts)}
-        if o["ok"] != expected or o["err_bad"] or o["err_good"] != npts - len(o["ok"]):
-            wrong = sorted(set(o["ok"].items()) ^ set(expected.items()))[:6]
-            unsafe = any(v["discr"] is not None and not G.plus_safe(v["discr"]) for v in c["variants"])
-            cls = "splice-precedence" if unsafe else "inverse-mismatch"
-            names = [G.vsrc(v) for v in c["variants"]]
-            chk.violation(cls, {"case": c, "rust": G.enum_item(c), "observed_ok": sorted(o["ok"].items()),
-                                "expected_ok": sorted(expected.items()), "err_with_wrong_input": o["err_bad"]},
-                          "try_from is not the inverse of the cast on %s: (n, variant) differing: %s; variants %s, discriminants %s" %
-                          (G.enum_item(c, with_derive=False).replace("\n", " "), wrong, names, sorted(table.items())))
-        # tie: model hits vs real hits
-        if m_hits is not None and m_hits != o["ok"]:
-            chk.violation("tie-model-hits", {"case": c, "model": sorted(m_hits.items()), "code": sorted(o["ok"].items())},
-                          "model and compiled expansion disagree on %s" % cid)
-        n_tie += 1
-        chk.cov["evaluations"] += npts - 1
-        chk.sample({"enum": G.enum_item(c, with_derive=False), "discriminants": sorted(table.items()),
-                    "ok": sorted(o["ok"].items())[:8], "inputs": npts, "oracle": o["mode"]}, limit=8)
+            chk.cov["evaluations"] += npts - 1
+            chk.sample({"enum": G.enum_item(c, with_derive=False), "discriminants": sorted(table.items()),
+                        "ok": sorted(o["ok"].items())[:8], "inputs": npts, "oracle": o["mode"]}, limit=8)
+        except common.BuildError:
+            raise
+        except Exception as e:      # a reader of real output must never abort the check
+            import traceback
+            chk.violation("expander-output-unreadable", {"case": c, "rust": G.enum_item(c), "error": traceback.format_exc()[-1500:]},
+                          "cannot read the run-time observation: %s: %s" % (type(e).__name__, e))
     chk.cov["traces_validated_against_impl"] = n_tie
     chk.bump("compiled_and_run", len(outs))
     chk.bump("rejected_by_rustc", len(failed))
